@@ -22,6 +22,12 @@ func decVal(v M) value.Type {
 		return value.Nil
 	case "int":
 		return value.NewInt(int(v["v"].(float64)))
+	case "bigint":
+		i, err := strconv.ParseInt(txtOf(v), 10, 64)
+		if err != nil {
+			panic(fmt.Sprint("bad big integer ", v))
+		}
+		return value.NewInt(int(i))
 	case "bool":
 		return value.NewBool(v["v"].(bool))
 	case "fn":
@@ -46,6 +52,16 @@ func decVal(v M) value.Type {
 		return value.NewFloat(decFloat(v))
 	}
 	panic(fmt.Sprint("bad value ", v))
+}
+
+func txtOf(v M) string {
+	s := ""
+	if l, ok := v["txt"].([]any); ok {
+		for _, c := range l {
+			s += c.(string)
+		}
+	}
+	return s
 }
 
 func decFloat(v M) float64 {
@@ -73,6 +89,9 @@ func sameVal(s M, r value.Type) bool {
 	case "int":
 		i, ok := r.ToInt()
 		return ok && i == int(s["v"].(float64))
+	case "bigint":
+		i, ok := r.ToInt()
+		return ok && fmt.Sprint(i) == txtOf(s)
 	case "bool":
 		b, ok := r.ToBool()
 		return ok && b == s["v"].(bool)
